@@ -227,8 +227,114 @@ func (w *World) describeIndexed(v ssa.Value) string {
 	return w.shortTerm(v)
 }
 
-// c08ErrorPaired: a pointer/interface returned together with an error is dereferenced only where the error was tested;
-// a constructor result that may be nil is tested before use.
+// nil status of a call result
+const (
+	nilNever = iota
+	nilOnlyWithError
+	nilPossiblyWithNilError
+)
+
+var nilMemo = map[string]int{}
+
+// nilStatus: can result i of fn be nil, and if so only together with a non-nil error?
+func (w *World) nilStatus(fn *ssa.Function, i int, seen map[string]bool) int {
+	key := fmt.Sprintf("%p#%d", fn, i)
+	if v, ok := nilMemo[key]; ok {
+		return v
+	}
+	if seen[key] {
+		return nilNever
+	}
+	seen[key] = true
+	res := fn.Signature.Results()
+	ei := -1
+	for k := res.Len() - 1; k >= 0; k-- {
+		if types.TypeString(res.At(k).Type(), nil) == "error" {
+			ei = k
+			break
+		}
+	}
+	status := nilNever
+	up := func(s int) {
+		if s > status {
+			status = s
+		}
+	}
+	errDefinitelySet := func(r *ssa.Return) bool {
+		if ei < 0 || ei >= len(r.Results) {
+			return false
+		}
+		for _, e := range phiLeaves(r.Results[ei]) {
+			if w.isFreshError(e) {
+				continue
+			}
+			if kc, idx := callOfResult(e); kc != nil && idx == errIndex(kc) && w.requires(fn, r, errNil(kc), false) {
+				continue
+			}
+			if !isNilConst(e) {
+				// an error value of unknown state (e.g. forwarded unconditionally): it is non-nil exactly when the callee failed
+				if kc, idx := callOfResult(e); kc != nil && idx == errIndex(kc) {
+					continue
+				}
+			}
+			return false
+		}
+		return true
+	}
+	for _, r := range returnsUnder(fn, nil) {
+		if i >= len(r.Results) {
+			continue
+		}
+		for _, v := range phiLeaves(r.Results[i]) {
+			if isNilConst(v) {
+				if errDefinitelySet(r) {
+					up(nilOnlyWithError)
+				} else {
+					up(nilPossiblyWithNilError)
+				}
+				continue
+			}
+			kc, j := callOfResult(v)
+			if kc == nil {
+				continue
+			}
+			callee := kc.Common().StaticCallee()
+			if callee == nil || !w.isMain(callee) {
+				continue
+			}
+			st := w.nilStatus(callee, j, seen)
+			if st == nilNever {
+				continue
+			}
+			// explicit nil test of the forwarded value before this return
+			nilT := func(a Atom) bool { return a.Kind == "nil" && strip(a.X) == strip(v) }
+			if w.requires(fn, r, nilT, false) {
+				continue
+			}
+			kei := errIndex(kc)
+			if st == nilOnlyWithError && kei >= 0 {
+				if w.requires(fn, r, errNil(kc), true) {
+					continue // only returned when the inner call succeeded
+				}
+				// forwarded together with the inner call's own error
+				fwd := false
+				if ei >= 0 && ei < len(r.Results) {
+					fwd = allVals(phiLeaves(r.Results[ei]), func(e ssa.Value) bool { return isResultOf(e, kc, kei) })
+				}
+				if fwd {
+					up(nilOnlyWithError)
+					continue
+				}
+			}
+			up(nilPossiblyWithNilError)
+		}
+	}
+	nilMemo[key] = status
+	return status
+}
+
+// c08ErrorPaired: a pointer/interface result that can be nil is dereferenced only where that was excluded: by the
+// error test when nil comes only with an error, by an explicit nil test (or a correlated predicate) otherwise.
 func c08ErrorPaired(c *Ctx, reach map[*ssa.Function]bool) {
 	w := c.w
 	rule := "panic-obligations"
@@ -248,68 +354,68 @@ func c08ErrorPaired(c *Ctx, reach map[*ssa.Function]bool) {
 				continue
 			}
 			ei := errIndex(call)
-			var val ssa.Value
-			mayNil := false
-			if ei > 0 {
-				if e := extractOf(call, 0); e != nil {
-					if isPtrOrIface(e.Type()) {
-						val = e
-						mayNil = w.returnsNilWithError(callee)
-					}
-				}
-			} else if ei < 0 && callee.Signature.Results().Len() == 1 && isPtrOrIface(call.Type()) {
-				if w.mayReturnNilConst(callee) {
-					val = call
-					mayNil = true
-				}
-			}
-			if val == nil || !mayNil {
-				continue
-			}
-			// dereferencing uses
-			for _, u := range *val.Referrers() {
-				deref := false
-				switch x := u.(type) {
-				case *ssa.FieldAddr:
-					deref = x.X == val
-				case *ssa.UnOp:
-					deref = x.Op == token.MUL && x.X == val
-				case ssa.CallInstruction:
-					cc := x.Common()
-					if cc.IsInvoke() && cc.Value == val {
-						deref = true
-					} else if sc := cc.StaticCallee(); sc != nil && sc.Signature.Recv() != nil && len(cc.Args) > 0 && cc.Args[0] == val {
-						// method with pointer receiver: dereferences if the method touches the receiver
-						deref = w.methodDerefsRecv(sc)
-					}
-				}
-				if !deref {
+			nres := callee.Signature.Results().Len()
+			for ri := 0; ri < nres; ri++ {
+				if ri == ei || !isPtrOrIface(callee.Signature.Results().At(ri).Type()) {
 					continue
 				}
-				n++
-				per++
-				key := fmt.Sprintf("%s/nil-deref/%s#%d", w.fname(fn), w.fname(callee), per)
-				guarded := false
-				if ei > 0 {
-					guarded = w.requires(fn, u, errNil(call), true)
+				var val ssa.Value
+				if nres == 1 {
+					val = call
+				} else if e := extractOf(call, ri); e != nil {
+					val = e
 				}
-				if !guarded {
-					// explicit nil test of the value
-					nilT := func(a Atom) bool { return a.Kind == "nil" && strip(a.X) == strip(val) }
-					guarded = w.requires(fn, u, nilT, false)
+				if val == nil {
+					continue
 				}
-				if !guarded {
-					// correlated predicate: the callee fails iff a receiver field is nil, and a predicate method on the same
-					// receiver testing that field guards the use (IsSIPURI / GetSIPURI)
-					guarded = w.correlatedGuard(fn, u, call, callee)
+				st := w.nilStatus(callee, ri, map[string]bool{})
+				if st == nilNever {
+					continue
 				}
-				if !guarded {
-					if reason, ok := c08Assumed[w.fname(callee)]; ok {
-						c.assume(rule, key, w.ipos(u), reason)
+				for _, u := range *val.Referrers() {
+					deref := false
+					switch x := u.(type) {
+					case *ssa.FieldAddr:
+						deref = x.X == val
+					case *ssa.UnOp:
+						deref = x.Op == token.MUL && x.X == val
+					case ssa.CallInstruction:
+						cc := x.Common()
+						if cc.IsInvoke() && cc.Value == val {
+							deref = true
+						} else if sc := cc.StaticCallee(); sc != nil && sc.Signature.Recv() != nil && len(cc.Args) > 0 && cc.Args[0] == val {
+							deref = w.methodDerefsRecv(sc)
+						}
+					}
+					if !deref {
 						continue
 					}
+					n++
+					per++
+					key := fmt.Sprintf("%s/nil-deref/%s#%d", w.fname(fn), w.fname(callee), per)
+					guarded := false
+					if st == nilOnlyWithError && ei >= 0 {
+						guarded = w.requires(fn, u, errNil(call), true)
+					}
+					if !guarded {
+						nilT := func(a Atom) bool { return a.Kind == "nil" && strip(a.X) == strip(val) }
+						guarded = w.requires(fn, u, nilT, false)
+					}
+					if !guarded {
+						guarded = w.correlatedGuard(fn, u, call, callee)
+					}
+					if !guarded {
+						if reason, ok := c08Assumed[w.fname(callee)]; ok {
+							c.assume(rule, key, w.ipos(u), reason)
+							continue
+						}
+					}
+					how := "it is returned as nil together with an error"
+					if st == nilPossiblyWithNilError {
+						how = "it can be nil even when no error is reported"
+					}
+					c.check(guarded, rule, key, w.ipos(u), "result of "+w.fname(callee)+" is used only where it cannot be nil", fmt.Sprintf("result %d of %s can be nil (%s) and is dereferenced at %s without that having been excluded: nil pointer dereference in network-reachable code", ri, w.fname(callee), how, w.ipos(u)))
 				}
-				c.check(guarded, rule, key, w.ipos(u), "result of "+w.fname(callee)+" is used only where it cannot be nil", "the result of "+w.fname(callee)+" can be nil (it is returned together with an error / by a nil-returning path) and is dereferenced at "+w.ipos(u)+" without that having been tested: nil pointer dereference")
 			}
 		}
 	}
